@@ -15,5 +15,5 @@ fn show(s: &str) {
     println!("{:?} -> {}", s, out.join(" "));
 }
 fn main() {
-    for s in ["{a: [ : x ]}", "{a: [ : x ], : y}", "[{a: b}, : foo]", "[ ? a : b, : c ]", "{ ? a : b, : c }", "[{a: b}, c: d, : e]", "{a: b}\n...\n[ : foo ]\n", "[[ : a ], : b]", "[{ : a }, : b]", "- { a: b }\n- [ : c ]\n"] { show(s); }
+    for s in ["[ a: { b: c, d: e } ]", "[ ? : x ]", "[ ? ]", "[ a: [b, c], d ]", "[ a: {b: c}, d: e ]"] { show(s); }
 }
